@@ -71,12 +71,31 @@ Theorem C16_cache_reuse : forall dynamic history t,
 Proof. exact cache_reuse. Qed.
 Print Assumptions C16_cache_reuse.
 
+(* ---- the owners: an unmarshaler (builder session + CBE reader + validator) and
+   the marshalers (iterator session + encoder); their answer is determined by
+   the answers of their parts ---- *)
+Theorem C16_cbe_unmarshaler_reuse : forall max cfg history op,
+  run_reused cbe_unmarshaler_init (cbe_unmarshaler_call max cfg) history op
+  = run_fresh cbe_unmarshaler_init (cbe_unmarshaler_call max cfg) op.
+Proof. exact cbe_unmarshaler_reuse. Qed.
+Print Assumptions C16_cbe_unmarshaler_reuse.
+
+Theorem C16_cte_marshaler_partial : forall history op,
+  has_header (snd op) ->
+  run_reused cte_marshaler_init cte_marshaler_call history op = run_fresh cte_marshaler_init cte_marshaler_call op.
+Proof. exact cte_marshaler_reuse. Qed.
+Print Assumptions C16_cte_marshaler_partial.
+
+Theorem C16_cbe_marshaler_partial : forall history op,
+  Forall enc_closes (map snd history) ->
+  run_reused cbe_marshaler_init cbe_marshaler_call history op = run_fresh cbe_marshaler_init cbe_marshaler_call op.
+Proof. exact cbe_marshaler_reuse_when. Qed.
+Print Assumptions C16_cbe_marshaler_partial.
+
 (* ---- the full property is violated (by the CBE encoder, and by the CTE encoder
    when it is fed a stream without OnBeginDocument) ---- *)
 Theorem C16_full_refuted : ~ C16_full.
-Proof.
-  intros (_ & _ & H & _). destruct cbe_enc_refuted as [h [es N]]. apply N, H.
-Qed.
+Proof. exact full_refuted. Qed.
 Print Assumptions C16_full_refuted.
 
 (* ---- non-vacuity: the hypotheses of the partial theorems are satisfiable on
